@@ -182,6 +182,11 @@ func (e *Engine) callFunction(st *State, fr *Frame, fn *ssa.Function, args []Val
 		r := e.newRegion("tbl$"+fn.Name(), rt.Elem(), false)
 		r.lazy = true
 		r.global = true
+		if strings.Contains(rt.Elem().String(), "hugeAffinePointMultTable") {
+			r.tblKind = "huge"
+		} else {
+			r.tblKind = "odd"
+		}
 		e.tableRegions = append(e.tableRegions, r)
 		return []callOutcome{{st: st, result: &PtrVal{reg: r, typ: rt}}}
 	}
@@ -913,7 +918,7 @@ func (e *Engine) invariantsAt(st *State, reg *Region, path []int, t types.Type, 
 				rec(extend(path, i), u.Field(i).Type(), label+"."+u.Field(i).Name())
 			}
 		case *types.Array:
-			if u.Len() <= 64 {
+			if u.Len() <= 256 {
 				for i := int64(0); i < u.Len(); i++ {
 					rec(extend(path, int(i)), u.Elem(), fmt.Sprintf("%s[%d]", label, i))
 				}
